@@ -252,13 +252,12 @@ def check_compound(case, ctx):
 def cases(draw):
     from checks import c41
 
-    data = draw(oq.datasets(max_parents=5, max_children=3, max_grand=2))
-    tree0 = st.one_of(st.none(), c41.where_trees(0, max_leaves=3))
-    tree1 = st.one_of(st.none(), c41.where_trees(1, max_leaves=3))
+    data = draw(c41._DATA)
+    tree0, tree1 = c41._WHERE3[0], c41._WHERE3[1]
     return {
         "data": data,
         "kind": draw(st.integers(0, len(KINDS) - 1)),
-        "root": draw(st.sampled_from(["Parent", "Parent", "Child", "Child", "Node", "Node", "Tag", "Grandchild"])),
+        "root": draw(st.sampled_from(["Node", "Child", "Parent", "Node", "Child", "Parent", "Tag", "Grandchild"])),
         "setop": draw(st.integers(0, 3)),
         "f1": draw(tree0), "f2": draw(tree0), "f3": draw(tree1),
         "join": draw(st.one_of(st.none(), st.tuples(st.integers(0, 1), st.booleans()).map(list))),
